@@ -544,12 +544,23 @@ uncond_traits!([T] Always<T>, [], Always(PhantomData));
 uncond_traits!([const K: usize, T] Aw<K, T>, [], Aw(PhantomData));
 uncond_traits!([const K: usize, T] Wr<K, T>, [T: M<K>], Wr(PhantomData));
 
+/// Implements exactly ONE owned/reference form of every operator: F = 0: `T op T`, 1: `T op &T`, 2: `&T op T`, 3: `&T op &T`;
+/// assign: 0: `T op= T`, 1: `T op= &T`; unary: 0: `op T`, 2: `op &T`.
+#[derive(Clone, Copy, Debug, Default, PartialEq, Eq, PartialOrd, Ord, Hash)]
+pub struct OnlyForm<const F: usize>;
+
 /// Zero-sized operand carrying a lifetime and a const parameter (lets operator derives meet those parameter kinds).
 #[derive(Clone, Copy, Debug, Default, PartialEq, Eq, PartialOrd, Ord, Hash)]
 pub struct Lt<'l, const N: usize>(pub PhantomData<&'l [u8; N]>);
 
 macro_rules! probe_ops {
     ($Tr:ident, $f:ident, $TrA:ident, $fa:ident) => {
+        impl std::ops::$Tr<OnlyForm<0>> for OnlyForm<0> { type Output = OnlyForm<0>; fn $f(self, _: OnlyForm<0>) -> OnlyForm<0> { OnlyForm } }
+        impl<'a> std::ops::$Tr<&'a OnlyForm<1>> for OnlyForm<1> { type Output = OnlyForm<1>; fn $f(self, _: &'a OnlyForm<1>) -> OnlyForm<1> { OnlyForm } }
+        impl<'a> std::ops::$Tr<OnlyForm<2>> for &'a OnlyForm<2> { type Output = OnlyForm<2>; fn $f(self, _: OnlyForm<2>) -> OnlyForm<2> { OnlyForm } }
+        impl<'a, 'b> std::ops::$Tr<&'b OnlyForm<3>> for &'a OnlyForm<3> { type Output = OnlyForm<3>; fn $f(self, _: &'b OnlyForm<3>) -> OnlyForm<3> { OnlyForm } }
+        impl std::ops::$TrA<OnlyForm<0>> for OnlyForm<0> { fn $fa(&mut self, _: OnlyForm<0>) {} }
+        impl<'a> std::ops::$TrA<&'a OnlyForm<1>> for OnlyForm<1> { fn $fa(&mut self, _: &'a OnlyForm<1>) {} }
         impl<'l, const N: usize> std::ops::$Tr<Lt<'l, N>> for Lt<'l, N> { type Output = Lt<'l, N>; fn $f(self, _: Lt<'l, N>) -> Lt<'l, N> { self } }
         impl<'x, 'l, const N: usize> std::ops::$Tr<&'x Lt<'l, N>> for Lt<'l, N> { type Output = Lt<'l, N>; fn $f(self, _: &'x Lt<'l, N>) -> Lt<'l, N> { self } }
         impl<'x, 'l, const N: usize> std::ops::$Tr<Lt<'l, N>> for &'x Lt<'l, N> { type Output = Lt<'l, N>; fn $f(self, _: Lt<'l, N>) -> Lt<'l, N> { *self } }
@@ -620,6 +631,8 @@ probe_ops!(Shr, shr, ShrAssign, shr_assign);
 
 macro_rules! probe_unops {
     ($Tr:ident, $f:ident) => {
+        impl std::ops::$Tr for OnlyForm<0> { type Output = OnlyForm<0>; fn $f(self) -> OnlyForm<0> { OnlyForm } }
+        impl<'a> std::ops::$Tr for &'a OnlyForm<2> { type Output = OnlyForm<2>; fn $f(self) -> OnlyForm<2> { OnlyForm } }
         impl<'l, const N: usize> std::ops::$Tr for Lt<'l, N> { type Output = Lt<'l, N>; fn $f(self) -> Lt<'l, N> { self } }
         impl<'x, 'l, const N: usize> std::ops::$Tr for &'x Lt<'l, N> { type Output = Lt<'l, N>; fn $f(self) -> Lt<'l, N> { *self } }
         impl std::ops::$Tr for Yes { type Output = Yes; fn $f(self) -> Yes { Yes } }
